@@ -80,6 +80,7 @@ func b2i(b bool) int {
 
 func canonMSM4(m *msm4.Message) string {
 	var sb strings.Builder
+	var wls []string
 	sb.WriteString("ok " + canonHeader(m.Header))
 	for i := range m.Satellites {
 		s := &m.Satellites[i]
@@ -100,13 +101,16 @@ func canonMSM4(m *msm4.Message) string {
 			}
 			fmt.Fprintf(&sb, " sig=%d:%d:%d:%d:%d:%d:%d:%d", idx, sid, c.ID, c.RangeDelta, c.PhaseRangeDelta,
 				c.LockTimeIndicator, b2i(c.HalfCycleAmbiguity), c.CarrierToNoiseRatio)
+			wls = append(wls, f64fields(c.Wavelength))
 		}
 	}
+	fmt.Fprintf(&sb, " const=%s wl=%s", strings.ReplaceAll(m.Header.Constellation, " ", "_"), strings.Join(wls, ","))
 	return sb.String()
 }
 
 func canonMSM7(m *msm7.Message) string {
 	var sb strings.Builder
+	var wls []string
 	sb.WriteString("ok " + canonHeader(m.Header))
 	for i := range m.Satellites {
 		s := &m.Satellites[i]
@@ -127,8 +131,10 @@ func canonMSM7(m *msm7.Message) string {
 			}
 			fmt.Fprintf(&sb, " sig=%d:%d:%d:%d:%d:%d:%d:%d:%d", idx, sid, c.ID, c.RangeDelta, c.PhaseRangeDelta,
 				c.LockTimeIndicator, b2i(c.HalfCycleAmbiguity), c.CarrierToNoiseRatio, c.PhaseRangeRateDelta)
+			wls = append(wls, f64fields(c.Wavelength))
 		}
 	}
+	fmt.Fprintf(&sb, " const=%s wl=%s", strings.ReplaceAll(m.Header.Constellation, " ", "_"), strings.Join(wls, ","))
 	return sb.String()
 }
 
@@ -268,6 +274,10 @@ func (s *msmSpec) expected() string {
 		}
 	}
 	fmt.Fprintf(&sb, " nsigrows=%d", len(s.sats))
+	// the constellation of the type and, per cell, the carrier wavelength of its signal: the oracle's own
+	// table of documented frequencies, c / f computed in float64 as the standard formula says
+	constel := map[uint64]string{107: "GPS", 108: "Glonass", 109: "Galileo", 110: "SBAS", 111: "QZSS", 112: "Beidou", 113: "NavIC/IRNSS"}[s.typ/10]
+	var wls []string
 	c := 0
 	for i := range s.cells {
 		for j, b := range s.cells[i] {
@@ -278,9 +288,15 @@ func (s *msmSpec) expected() string {
 			for _, v := range s.sigVals[c] {
 				fmt.Fprintf(&sb, ":%d", v)
 			}
+			wl := 0.0
+			if f, ok := freqSpec[constel][s.sigs[j]]; ok {
+				wl = 299792458.0 / f
+			}
+			wls = append(wls, f64fields(wl))
 			c++
 		}
 	}
+	fmt.Fprintf(&sb, " const=%s wl=%s", strings.ReplaceAll(constel, " ", "_"), strings.Join(wls, ","))
 	return sb.String()
 }
 
